@@ -19,6 +19,8 @@ secure  utils.secure_filename for every Unicode scalar value of the BMP (thoroug
 from __future__ import annotations
 
 import importlib
+import itertools
+import pathlib
 import os
 import posixpath
 import shutil
@@ -31,15 +33,23 @@ from mc import core, gen
 ID = "C14"
 LEVEL = "exploration"
 RULE = (
-    "join: all tuples of 1..3 (thorough 1..4) components over 24 atoms x 6 base "
-    "directories through safe_join; e2e: all request paths of 1..3 (thorough 1..4) atoms over 22 atoms "
-    "joined with '/', raw and percent-decoded, x 5 servers over a real scratch tree with sentinels outside the "
-    "root; secure: every BMP scalar value (thorough: every Unicode scalar value) in 6 contexts + all strings <=3 "
-    "(thorough 4) over 15 atoms through secure_filename. non-trivial = safe_join accepted a tuple containing a "
-    "'..'/absolute/odd atom or refused one; a request that was answered 200; a filename that was changed."
+    "join: all tuples of 1..3 (thorough 1..4) components over 24 atoms, all single components of 1..3 (thorough 4) "
+    "'/'-joined segments over 15 segment atoms of which >=1 is a shielded dot segment (NUL / blank / tab / backslash / "
+    "colon / drive / percent / fullwidth glued to '.' or '..'), and pairs of such components, x 6 base directories, "
+    "each through safe_join with str arguments, os.PathLike arguments and with the Windows alternative separator "
+    "list; e2e: all request paths of 1..3 (thorough 1..4) atoms over 22 atoms, of 1..3 (4) atoms over 5 + 18 shielded "
+    "atoms and of <=2 atoms over all 40, as is, percent-decoded once and twice, x 8 servers (send_from_directory with "
+    "str / relative+_root_path / PathLike arguments, SharedDataMiddleware directory loader at /static and /, package "
+    "loader, single-file export, list exports + disallow + cache with a conditional re-request) over a real scratch "
+    "tree with sentinels outside the root; secure: every BMP scalar value (thorough: every Unicode scalar value) in 6 "
+    "contexts + all strings <=3 (thorough 4) over 15 atoms, and all strings <=3 (4) over 16 device-name atoms with "
+    "werkzeug.utils seeing os.name == 'nt'. non-trivial = safe_join accepted a tuple containing a '..'/absolute/odd "
+    "atom or refused one; a request that was answered 200; a filename that was changed; a device-name input."
 )
 ASSUMPTIONS = [
-    "POSIX path semantics (os.sep == '/'); backslash / drive-letter handling on Windows hosts is not reachable here",
+    "POSIX path semantics (os.sep == '/'); of the Windows behaviour only what is switchable from outside is "
+    "simulated: security._os_alt_seps == ['\\\\'] for safe_join, and utils seeing os.name == 'nt' for the device-name "
+    "branch of secure_filename (there the documented 'not a device file name' is demanded in addition)",
     "containment is lexical (posixpath.normpath); symlinks inside the trusted directory are the operator's business",
     "a refusal may be None / NotFound / fall-through to the wrapped app / any exception - the property only "
     "forbids serving something outside the root",
@@ -49,6 +59,8 @@ ASSUMPTIONS = [
 
 from werkzeug.exceptions import NotFound  # noqa: E402
 from werkzeug.middleware.shared_data import SharedDataMiddleware  # noqa: E402
+import werkzeug.security as wsec  # noqa: E402
+import werkzeug.utils as wutils  # noqa: E402
 from werkzeug.security import safe_join  # noqa: E402
 from werkzeug.utils import secure_filename, send_from_directory  # noqa: E402
 
@@ -57,6 +69,17 @@ from werkzeug.utils import secure_filename, send_from_directory  # noqa: E402
 J_CORE = ["..", ".", "", "/", "a", "a/..", "a/../..", "../a", "..a", "./..", "/etc", "a/./.."]
 J_EXTRA = ["//", "\\", "C:", "~", "%2e%2e", "a\0b", "a.b", ".a", "..\\a", "a//..//..", "...", "../"]
 J_ATOMS = J_CORE + J_EXTRA
+# segments that only become '.' / '..' after a transformation somebody might apply *after* validation (dropping
+# NUL, stripping blanks, unquoting, folding backslash / fullwidth forms, removing a drive prefix or a '../' once)
+J_SHIELD = ["..", ".", "a", "\0..", "..\0", "\0.", ".\0.", " ..", "..\t", "\\..", "..:", "%2e%2e", "．．", "....", "C:.."]
+
+
+def shield_components(depth: int):
+    """Single components made of 1..depth segments (joined with '/') of which at least one is shielded."""
+    for t in gen.sequences(J_SHIELD, depth, 1):
+        if any(x in J_SHIELD[3:] for x in t):
+            yield "/".join(t)
+
 J_BASES = ["/base/dir", "rel/dir", "", "/", ".", "/base/dir/"]
 ODD = ("..", "/", "\\", "\0", "~", ":", "%")
 
@@ -71,19 +94,44 @@ def join_cases(tier):
     for base in J_BASES:
         for t in gen.sequences(J_ATOMS, 4 if tier == "thorough" else 3, 1):
             yield base, t
+        # one multi-segment component, then pairs of shorter ones
+        for c in shield_components(4 if tier == "thorough" else 3):
+            yield base, (c,)
+        two = list(shield_components(2))
+        for c1 in two:
+            for c2 in (two if tier == "thorough" else two[:40]):
+                yield base, (c1, c2)
+            yield base, ("a", c1)
+            yield base, (c1, "..")
 
 
-def check_join(base, comps):
+def check_join(base, comps, mode="str"):
+    """mode: str (plain strings) | pathlike (every argument an os.PathLike) | altsep (the module's alternative
+    separator list is what it is on Windows: ['\\'])."""
+    args = comps
+    b = base
+    old = wsec._os_alt_seps
     try:
-        r = safe_join(base, *comps)
-    except Exception as e:  # noqa: BLE001
-        return [("join:exception:" + type(e).__name__, repr(e))], "EXC"
+        if mode == "pathlike":
+            args = [pathlib.PurePosixPath(c) for c in comps]
+            b = pathlib.PurePosixPath(base) if base else base
+        elif mode == "altsep":
+            wsec._os_alt_seps = ["\\"]
+        try:
+            r = safe_join(b, *args)
+        except Exception as e:  # noqa: BLE001
+            if mode == "pathlike":       # the signature promises str only: refusing PathLike arguments is fine
+                return [], None
+            return [("join:exception:" + type(e).__name__, repr(e))], "EXC"
+    finally:
+        wsec._os_alt_seps = old
     if r is None:
         return [], None
     if not isinstance(r, str):
         return [("join:not-a-string", repr(r))], r
-    if not inside(base, r):
-        return [("join:escape", (r, posixpath.normpath(r)))], r
+    probe = r.replace("\\", "/") if mode == "altsep" else r
+    if not inside(base, probe):
+        return [("join:escape" + ("" if mode == "str" else ":" + mode), (r, posixpath.normpath(probe)))], r
     return [], r
 
 
@@ -92,7 +140,12 @@ def check_join(base, comps):
 E_CORE = ["..", ".", "", "f.txt", "sub", "secret.txt", "%2e%2e", "a", "rootx", "g.txt", "<T>"]
 E_EXTRA = ["..%2f", "%2e%2e%2f..", "\\", "..\\", "a\0b", "%2f", "..a", "~", "sub/..", "../secret.txt", "%2e"]
 E_ATOMS = E_CORE + E_EXTRA
-SERVERS = ["send_from_directory", "sdm_dir", "sdm_root", "sdm_pkg", "send_from_directory_rel"]
+# see J_SHIELD: segments / fragments that are harmless names now and traversal after a late transformation
+E_SHIELD = ["\0.", "\0..", "..\0", ".\0", " ..", ".. ", "\t..", "\\..", "..:", "C:..", "%00..", "%252e%252e",
+            "..\\secret.txt", "．．", "..／secret.txt", "....//", "..././", "%2e%00%2e"]
+E_SMALL = ["..", ".", "secret.txt", "sub", "f.txt"]
+SERVERS = ["send_from_directory", "sdm_dir", "sdm_root", "sdm_pkg", "send_from_directory_rel",
+           "send_from_directory_pathlike", "sdm_file", "sdm_disallow"]
 SENTINEL = b"SENTINEL: this file is outside the trusted directory"
 
 _counter = [0]
@@ -107,6 +160,7 @@ class Tree:
         self.pkg = f"c14pkg_{os.getpid()}_{_counter[0]}"
         T = self.T
         self.files = {}
+        self.conditional = None
 
         def put(rel, content):
             p = os.path.join(T, rel)
@@ -137,6 +191,12 @@ class Tree:
             "sdm_dir": (SharedDataMiddleware(fallback, {"/static": self.root}, cache=False), "/static/", self.root),
             "sdm_root": (SharedDataMiddleware(fallback, {"/": self.root}), "/", self.root),
             "sdm_pkg": (SharedDataMiddleware(fallback, {"/pkg": (self.pkg, "static")}), "/pkg/", self.pkgstatic),
+            # a single exported file: whatever follows the prefix, only that file may be served
+            "sdm_file": (SharedDataMiddleware(fallback, {"/one": os.path.join(self.root, "f.txt")}), "/one/",
+                         ("file", os.path.join(self.root, "f.txt"))),
+            # exports given as a list, a disallow pattern, caching on, odd fallback mimetype
+            "sdm_disallow": (SharedDataMiddleware(fallback, [("/static", self.root)], disallow="*.txt", cache=True,
+                                                  fallback_mimetype="text/x-odd"), "/static/", self.root),
         }
         return self
 
@@ -165,8 +225,12 @@ class Tree:
             else:
                 directory = root
             environ["PATH_INFO"] = "/"
+            arg = path
+            if server.endswith("_pathlike"):
+                directory = pathlib.PurePosixPath(directory)
+                arg = pathlib.PurePosixPath(path)
             try:
-                resp = send_from_directory(directory, path, environ, **kw)
+                resp = send_from_directory(directory, arg, environ, **kw)
             except NotFound:
                 return "refused", "NotFound", root
             except Exception as e:  # noqa: BLE001
@@ -181,15 +245,29 @@ class Tree:
         try:
             environ["PATH_INFO"] = (prefix + path).encode("utf-8").decode("latin-1")
             st = []
-            it = app(environ, lambda s, h, e=None: st.append(s))
+            it = app(environ, lambda s, h, e=None: st.append((s, h)))
             try:
                 body = b"".join(it)
             finally:
                 if hasattr(it, "close"):
                     it.close()
+            code = int(st[0][0].split()[0])
+            etag = dict(st[0][1]).get("Etag")
+            if code == 200 and etag:
+                # the conditional request for the same path must not turn into a different file either
+                environ2 = dict(environ, HTTP_IF_NONE_MATCH=etag)
+                st2 = []
+                it2 = app(environ2, lambda s, h, e=None: st2.append((s, h)))
+                try:
+                    body2 = b"".join(it2)
+                finally:
+                    if hasattr(it2, "close"):
+                        it2.close()
+                self.conditional = int(st2[0][0].split()[0])
+                if self.conditional == 200 and body2 != body:
+                    return 200, body + b"|SECOND ANSWER:" + body2, root
         except Exception as e:  # noqa: BLE001
             return "refused", "exception:" + type(e).__name__, root
-        code = int(st[0].split()[0])
         if code != 200:
             return "refused", str(code), root
         return 200, body, root
@@ -198,12 +276,21 @@ class Tree:
 def e2e_paths(tier):
     """Path templates ('<T>' = absolute path of the scratch directory): every tuple joined with '/', as is and
     percent-decoded (what a server hands over when the client sent the tuple's text as the request target)."""
-    for t in gen.sequences(E_ATOMS, 4 if tier == "thorough" else 3, 1):
-        p = "/".join(t)
-        yield p
-        v = unquote(p)
-        if v != p:
-            yield v
+    T = tier == "thorough"
+    spaces = [(E_ATOMS, 4 if T else 3, None), (E_SMALL + E_SHIELD, 4 if T else 3, E_SHIELD),
+              (E_ATOMS + E_SHIELD, 2, E_SHIELD)]
+    for atoms, depth, must in spaces:
+        for t in gen.sequences(atoms, depth, 1):
+            if must is not None and not any(x in must for x in t):
+                continue
+            p = "/".join(t)
+            yield p
+            v = unquote(p)
+            if v != p:
+                yield v
+                w = unquote(v)      # a client that encoded twice / a proxy that decoded once more
+                if w != v:
+                    yield w
 
 
 def check_e2e(tree: Tree, server: str, template: str):
@@ -214,6 +301,10 @@ def check_e2e(tree: Tree, server: str, template: str):
     fails = []
     if SENTINEL in body:
         fails.append(("e2e:sentinel-served:" + server, body[:80]))
+        return fails, (status, body[:40])
+    if isinstance(root, tuple):       # single exported file
+        if tree.files.get(root[1]) != body:
+            fails.append(("e2e:wrong-file-served:" + server, (root[1], body[:80])))
         return fails, (status, body[:40])
     try:
         designated = os.path.normpath(os.path.join(root, path))
@@ -258,10 +349,49 @@ def secure_bad(s: str):
     return None
 
 
+class _NtPath:
+    altsep = "/"
+    sep = "\\"
+
+    def __getattr__(self, k):
+        return getattr(os.path, k)
+
+
+class _NtOs:
+    """What werkzeug.utils sees as `os` on a Windows host (only name / sep / path.altsep differ)."""
+    name = "nt"
+    sep = "\\"
+    path = _NtPath()
+
+    def __getattr__(self, k):
+        return getattr(os, k)
+
+
+NT_DEVICES = {"CON", "PRN", "AUX", "NUL"} | {f"COM{i}" for i in range(1, 10)} | {f"LPT{i}" for i in range(1, 10)}
+NT_ATOMS = ["CON", "nul", "COM1", "LPT9", "aux", "prn", "com0", ".", "_", " ", "txt", "/", "\\", "a", "é", "Con"]
+
+
+def secure_bad_nt(s: str):
+    """secure_filename as it behaves on Windows: the statement's demands plus the documented one that the result
+    is not a device file name."""
+    old = wutils.os
+    wutils.os = _NtOs()
+    try:
+        bad = secure_bad(s)
+        if bad:
+            return (bad[0] + ":nt", bad[1])
+        f = secure_filename(s)
+        if f.split(".")[0].rstrip(" ").upper() in NT_DEVICES:
+            return "secure:device-name:nt", f
+        return None
+    finally:
+        wutils.os = old
+
+
 # ------------------------------------------------------------------ units
 
 N_JOIN = 32
-N_E2E = 96
+N_E2E = 192
 
 
 def units(tier):
@@ -270,6 +400,7 @@ def units(tier):
     top = 0x110000 if tier == "thorough" else 0x10000
     out += [("sweep", lo, min(lo + SWEEP_CHUNK, top)) for lo in range(0, top, SWEEP_CHUNK)]
     out += [("sstr", i, 8) for i in range(8)]
+    out += [("nt", i, 4) for i in range(4)]
     return out
 
 
@@ -281,6 +412,16 @@ def run_unit(unit, R, tier):
             R.ev()
             R.count("join_cases")
             fails, r = check_join(base, t)
+            for mode in ("pathlike", "altsep"):
+                f2, r2 = check_join(base, t, mode)
+                R.ev()
+                if r2 is not None:
+                    R.use("join:accepted:" + mode)
+                elif r is not None:
+                    R.use("join:refused-only:" + mode)
+                for sig, detail in f2:
+                    R.violation(sig, {"kind": "join", "sig": sig, "mode": mode, "base": base, "components": list(t),
+                                      "result": r2, "detail": detail})
             hostile = any(o in c for c in t for o in ODD)
             if r is None:
                 R.use("join:refused")
@@ -342,6 +483,18 @@ def run_unit(unit, R, tier):
             R.outcome(("secure", f if len(f) < 4 else "long"))
             if cp % 0x1555 == 0:
                 R.sample({"kind": "secure", "input": "a" + c + "b", "output": f})
+    elif kind == "nt":
+        _, idx, n = unit
+        depth = 4 if tier == "thorough" else 3
+        for s in gen.shard(itertools.chain(gen.strings(NT_ATOMS, depth), gen.strings(S_ATOMS, 3)), n, idx):
+            R.ev()
+            R.count("secure_nt_cases")
+            bad = secure_bad_nt(s)
+            if s.split(".")[0].strip().upper() in NT_DEVICES:
+                R.use("secure:nt:device-input")
+                R.nontrivial(("nt", s))
+            if bad:
+                R.violation(bad[0], {"kind": "secure-nt", "sig": bad[0], "input": s, "detail": bad[1]})
     else:
         _, idx, n = unit
         depth = 4 if tier == "thorough" else 3
@@ -364,9 +517,10 @@ def run_unit(unit, R, tier):
 def finalize(R, tier):
     need = {"join:refused", "join:accepted-hostile", "e2e:200-via-dotdot", "e2e:refusal:NotFound",
             "e2e:refusal:404", "secure:dropped", "secure:to-underscore", "secure:transliterated",
-            "secure:empty-result"}
+            "secure:empty-result", "secure:nt:device-input", "join:accepted:pathlike", "join:accepted:altsep",
+            "join:refused-only:altsep"}
     need |= {"join:base:" + b for b in J_BASES}
-    need |= {"e2e:200:" + s for s in SERVERS} | {"e2e:refused:" + s for s in SERVERS}
+    need |= {"e2e:200:" + s for s in SERVERS} | {"e2e:refused:" + s for s in SERVERS if s != "sdm_file"}
     missing = need - R.used
     if missing:
         raise core.Broken(f"vacuity: never exercised {sorted(missing)}")
@@ -377,10 +531,12 @@ def finalize(R, tier):
             or inside("/base/dir", "/base/dirx") or not inside("/", "/etc"):
         raise core.Broken("containment oracle is wrong")
     return {
-        "bound": ("join tuples <=3 over 24 atoms x 6 bases; request paths <=3 over 22 atoms x 2 decodings x 5 servers; "
-                  "secure_filename BMP x 6 contexts + strings <=3 over 15 atoms") if tier == "quick" else
-                 ("join tuples <=4 over 24 atoms x 6 bases; request paths <=4 over 22 atoms "
-                  "x 2 decodings x 5 servers; secure_filename all planes x 6 contexts + strings <=4 over 15 atoms"),
+        "bound": ("join tuples <=3 over 24 atoms, shielded components <=3 segments x 6 bases x 3 argument modes; request "
+                  "paths <=3 over 22 / 23 atoms and <=2 over 40 x 3 decodings x 8 servers; secure_filename BMP x 6 "
+                  "contexts + strings <=3; nt device strings <=3") if tier == "quick" else
+                 ("join tuples <=4 over 24 atoms, shielded components <=4 segments x 6 bases x 3 argument modes; request "
+                  "paths <=4 over 22 / 23 atoms and <=2 over 40 x 3 decodings x 8 servers; secure_filename all planes "
+                  "x 6 contexts + strings <=4; nt device strings <=4"),
         "exhaustive": True,
         "n_join": R.counts["join_cases"], "n_e2e": R.counts["e2e_requests"], "n_secure": R.counts["secure_cases"],
     }
@@ -392,14 +548,18 @@ def finalize(R, tier):
 def replay(rec):
     kind = rec.get("kind")
     if kind == "join":
-        fails, r = check_join(rec["base"], tuple(rec["components"]))
-        text = f"safe_join({rec['base']!r}, *{tuple(rec['components'])!r}) = {r!r}"
+        fails, r = check_join(rec["base"], tuple(rec["components"]), rec.get("mode", "str"))
+        text = f"[{rec.get('mode', 'str')}] safe_join({rec['base']!r}, *{tuple(rec['components'])!r}) = {r!r}"
         if isinstance(r, str):
             text += f"\nnormpath -> {posixpath.normpath(r)!r}  (base {posixpath.normpath(rec['base'] or '.')!r})"
     elif kind == "e2e":
         with Tree() as tree:
             fails, got = check_e2e(tree, rec["server"], rec["path"])
         text = f"server={rec['server']} path={rec['path']!r} ('<T>' = scratch dir) -> {got}"
+    elif kind == "secure-nt":
+        bad = secure_bad_nt(rec["input"])
+        fails = [bad] if bad else []
+        text = f"[os.name == 'nt'] secure_filename({rec['input']!r})"
     elif kind == "secure":
         bad = secure_bad(rec["input"])
         fails = [bad] if bad else []
